@@ -442,8 +442,22 @@ pub fn run(a: &Args) {
     for i in 0..n {
         vcommon::obs::mark_case(&marker, &format!("wire:{seed}:{i}"));
         // every fourth case is a bare leaf so that each integer width gets direct coverage
-        let s = if i % 4 == 0 { gen::leaf_shape(&mut r) } else { gen::gshape(&mut r, depth) };
-        let v = gen::gval(&mut r, &s, i % 3 == 0);
+        let (s, v) = if i % 32 == 17 {
+            // containers whose entries occupy no bytes: far more entries than bytes in the message (or in any scratch buffer
+            // sized after it), bare and followed by another field
+            let (kt, kv) = [(Shape::Unit, Val::Unit), (Shape::UnitStruct, Val::Unit), (Shape::Tuple(vec![]), Val::Seq(vec![]))][r.gen_range(0..3)].clone();
+            let k = [1usize, 20, 40, 200][r.gen_range(0..4)];
+            let (cs, cv) = if r.gen_range(0..2) == 0 {
+                (Shape::Map(Box::new(kt.clone()), Box::new(kt)), Val::Map(vec![(kv.clone(), kv); k]))
+            } else {
+                (Shape::Seq(Box::new(kt)), Val::Seq(vec![kv; k]))
+            };
+            if r.gen_range(0..2) == 0 { (cs, cv) } else { (Shape::Tuple(vec![cs, Shape::U8]), Val::Seq(vec![cv, Val::U8(r.gen())])) }
+        } else {
+            let s = if i % 4 == 0 { gen::leaf_shape(&mut r) } else { gen::gshape(&mut r, depth) };
+            let v = gen::gval(&mut r, &s, i % 3 == 0);
+            (s, v)
+        };
         let ee = i % ENC_ENTRIES.len();
         let de = (i / ENC_ENTRIES.len()) % DEC_ENTRIES.len();
         let tail: Vec<u8> = (0..r.gen_range(0..3)).map(|_| ALPHA[r.gen_range(0..ALPHA.len())]).collect();
